@@ -31,7 +31,7 @@ func installValidator() {
 }
 
 // history classes: what kind of batch each build of a history gets
-var histKinds = []string{"large", "small", "manyfields", "fewfields", "syn", "plain", "vec", "empty", "rejected", "one", "dv", "nodv", "deep"}
+var histKinds = []string{"large", "small", "manyfields", "fewfields", "syn", "plain", "vec", "empty", "rejected", "one", "dv", "nodv", "deep", "emptysyn"}
 
 func histBatch(rng *rand.Rand, kind string, prefix string) *model.Batch {
 	o := model.GenOpts{NoBig: true, IDPrefix: prefix}
@@ -54,6 +54,15 @@ func histBatch(rng *rand.Rand, kind string, prefix string) *model.Batch {
 		return model.Gen(rng, "small", o)
 	case "empty":
 		return model.Gen(rng, "empty", o)
+	case "emptysyn":
+		// synonym definitions that analysis left without any synonym: the
+		// thesaurus exists but has no term
+		b := model.Gen(rng, "small", o)
+		n := 1 + rng.Intn(2)
+		for k := 0; k < n; k++ {
+			b.Docs = append(b.Docs, model.Doc{ID: fmt.Sprintf("%sesyn%d", prefix, k), Syn: []model.SynField{{Thes: model.ThesPool[rng.Intn(2)], Pairs: emptyPairs(rng)}}})
+		}
+		return b
 	case "one":
 		return model.Gen(rng, "one", o)
 	case "deep":
@@ -239,4 +248,13 @@ func c10conc(c *Ctx) {
 		c.Sample(map[string]interface{}{"case": id, "goroutines": g, "gomaxprocs": procs, "first_history": hs[0].kinds})
 		c.End()
 	}
+}
+
+// emptyPairs: a definition without synonyms — either terms that map to
+// nothing or (equivalence group analysed to nothing) no pair at all.
+func emptyPairs(rng *rand.Rand) []model.SynPair {
+	if rng.Intn(2) == 0 {
+		return nil
+	}
+	return []model.SynPair{{Term: "lonely"}, {Term: "a"}}
 }
